@@ -1,7 +1,7 @@
 (* C31 — declarative statements (Prop) of what each row checker establishes, and the soundness lemmas
    checker = true -> statement; lifting from [forallb ... = true] to "for every package table, for every row". *)
 From Coq Require Import List NArith ZArith Bool Lia.
-From Verif Require Import Common.GoStr C32.Model C31.Model.
+From Verif Require Import Common.GoStr C31.Untyped C31.Model.
 Import ListNotations.
 Open Scope N_scope.
 
